@@ -828,6 +828,11 @@ func (c *Context) Ln(d, x *Decimal) (Condition, error) {
 			if tmp4.Abs(&tmp4).Cmp(&eps) <= 0 {
 				break
 			}
+			// Once an operation has failed the terms are no longer updated
+			// and the loop would never terminate.
+			if err := ed.Err(); err != nil {
+				return 0, err
+			}
 		}
 	} else {
 		// Use Halley's Iteration.
